@@ -14,6 +14,7 @@ from typing import Mapping
 from typing import MutableMapping
 from typing import MutableSequence
 from typing import Sequence
+from typing import Tuple
 from typing import TypeVar
 from typing import Union
 
@@ -39,6 +40,28 @@ def _member_name(
     if isinstance(target, int) and target not in parent:
         return str(target)
     return target
+
+
+def _resolve_target(
+    pointer: JSONPointer, data: object
+) -> Tuple[Union[Sequence[object], Mapping[str, object], None], object]:
+    """Resolve _pointer_ like `JSONPointer.resolve_parent()`, for patch operations.
+
+    A pointer can end in a non-standard key or index marker (`#name`, `~name` or
+    `#0`), which resolves to a member's name or an element's index rather than
+    to a location in the document. Patch operations can't change or test those,
+    so such a target is reported as nonexistent.
+    """
+    parent, obj = pointer.resolve_parent(data)  # type: ignore
+    if parent is not None and obj is not UNDEFINED:
+        target = pointer.parts[-1]
+        if (
+            isinstance(target, str)
+            and target.startswith((pointer.keys_selector, "#"))
+            and not (isinstance(parent, Mapping) and target in parent)
+        ):
+            return parent, UNDEFINED
+    return parent, obj
 
 
 def _json_equal(left: object, right: object) -> bool:
@@ -99,7 +122,7 @@ class OpAdd(Op):
         # Insert a copy, so later operations that modify the inserted value don't
         # change this operation, and repeated applications are independent.
         value = copy.deepcopy(self.value)
-        parent, obj = self.path.resolve_parent(data)
+        parent, obj = _resolve_target(self.path, data)
         if parent is None:
             # Replace the root object.
             # The following op, if any, will raise a JSONPatchError if needed.
@@ -145,7 +168,7 @@ class OpAddNe(OpAdd):
         self, data: Union[MutableSequence[object], MutableMapping[str, object]]
     ) -> Union[MutableSequence[object], MutableMapping[str, object]]:
         """Apply this patch operation to _data_."""
-        parent, obj = self.path.resolve_parent(data)
+        parent, obj = _resolve_target(self.path, data)
         if isinstance(parent, MutableMapping) and obj is not UNDEFINED:
             # Leave the existing member untouched.
             return data
@@ -170,7 +193,7 @@ class OpAddAp(OpAdd):
     ) -> Union[MutableSequence[object], MutableMapping[str, object]]:
         """Apply this patch operation to _data_."""
         value = copy.deepcopy(self.value)
-        parent, obj = self.path.resolve_parent(data)
+        parent, obj = _resolve_target(self.path, data)
         if parent is None:
             # Replace the root object.
             # The following op, if any, will raise a JSONPatchError if needed.
@@ -205,7 +228,7 @@ class OpRemove(Op):
         self, data: Union[MutableSequence[object], MutableMapping[str, object]]
     ) -> Union[MutableSequence[object], MutableMapping[str, object]]:
         """Apply this patch operation to _data_."""
-        parent, obj = self.path.resolve_parent(data)
+        parent, obj = _resolve_target(self.path, data)
         if parent is None:
             raise JSONPatchError("can't remove root")
 
@@ -244,7 +267,7 @@ class OpReplace(Op):
     ) -> Union[MutableSequence[object], MutableMapping[str, object]]:
         """Apply this patch operation to _data_."""
         value = copy.deepcopy(self.value)
-        parent, obj = self.path.resolve_parent(data)
+        parent, obj = _resolve_target(self.path, data)
         if parent is None:
             return value  # type: ignore
 
@@ -285,7 +308,7 @@ class OpMove(Op):
         if self.dest.is_relative_to(self.source):
             raise JSONPatchError("can't move object to one of its own children")
 
-        source_parent, source_obj = self.source.resolve_parent(data)
+        source_parent, source_obj = _resolve_target(self.source, data)
 
         if source_obj is UNDEFINED:
             raise JSONPatchError("source object does not exist")
@@ -318,7 +341,7 @@ class OpCopy(Op):
         self, data: Union[MutableSequence[object], MutableMapping[str, object]]
     ) -> Union[MutableSequence[object], MutableMapping[str, object]]:
         """Apply this patch operation to _data_."""
-        source_parent, source_obj = self.source.resolve_parent(data)
+        source_parent, source_obj = _resolve_target(self.source, data)
 
         if source_obj is UNDEFINED:
             raise JSONPatchError("source object does not exist")
@@ -346,7 +369,7 @@ class OpTest(Op):
         self, data: Union[MutableSequence[object], MutableMapping[str, object]]
     ) -> Union[MutableSequence[object], MutableMapping[str, object]]:
         """Apply this patch operation to _data_."""
-        _, obj = self.path.resolve_parent(data)
+        _, obj = _resolve_target(self.path, data)
         if not _json_equal(obj, self.value):
             raise JSONPatchTestFailure
         return data
